@@ -8,6 +8,7 @@ CONSTANTS
   MaxPub = 4
   MaxBatch = 2
   MaxJoin = 3
+  AtPos = {0, 1, 2, 3, 4, 5}
   MaxKick = 1
   Serial = TRUE
   CopyBusy = FALSE
